@@ -23,6 +23,11 @@ CLAIMS = {
                     'empty-join guard (EMPTYJOIN); closed-table lookups (TOTAL); unguarded parsing of stored text (EXC); REGEXP callback '
                     'flags (REXFLAGS); SQL aggregates (AGG); ' + IEF + ' discover_db_table/verify_db_table.',
             'technique': 'template-slot taint classification (def-use), guard chains, call-graph reachability, definite-assignment walk'},
+    'C09': {'text': 'writer keys are constructor parameters and tables share one tuple (KEYS); every emitted value passes the date stringifier '
+                    '(DATEPATH); writer date language is included in the reader regexes, exact integer conversion (DATELANG); date-only text '
+                    'keeps its type (DATETYPE); null-valued constraints load (NULLG); unknown kinds are inert, stored values tested against '
+                    'None only (UNKNOWN); all entry points funnel into one loader (ENTRY); to_json shape and newline-only line splitting (STRIP).',
+            'technique': 'registry/key-set comparison, return-expression shape checks, guard chains, regular-language inclusion on extracted regex constants'},
     'C10': {'text': 'every effect on a reference path is under the true arm of _should_regenerate(own kind) on every call chain '
                     '(GUARD, KINDFWD); normal-mode effects write only under tmp_dir (NOWRITE); only set_regeneration stores into the '
                     'table and only command-line parsers call it (WHOSETS); flag spellings and their wiring (FLAGS); writer/reader '
